@@ -77,6 +77,7 @@ type VC struct {
 	ixNames    map[string]string
 	guardCovered map[string]bool
 	errGlobals []string
+	passedToCurrentCall func(localCell) bool
 	boxFacts   map[string]bool
 }
 
@@ -629,7 +630,13 @@ type localCell struct {
 // havocAll replaces every heap class by a fresh array. Cells of local variables whose address never leaves the
 // function (escape analysis in enc.go) keep their content: unknown code cannot reach them.
 func (vc *VC) havocAll(st *State, why string) {
-	vc.havocAllKeep(st, func(localCell) bool { return true })
+	// a local cell whose address is an argument of the call that causes the havoc can be written by the callee
+	vc.havocAllKeep(st, func(c localCell) bool {
+		if vc.passedToCurrentCall != nil && vc.passedToCurrentCall(c) {
+			return false
+		}
+		return true
+	})
 }
 
 func (vc *VC) havocAllKeep(st *State, keep func(localCell) bool) {
